@@ -578,6 +578,8 @@ impl<'a> Repr<'a> {
             Repr::Mtu(mtu) => {
                 opt.set_option_type(Type::Mtu);
                 opt.set_data_len(1);
+                // The two octets between the length and the MTU are reserved and must be zero.
+                opt.buffer.as_mut()[field::LENGTH + 1..field::MTU.start].fill(0);
                 opt.set_mtu(mtu);
             }
             Repr::Unknown {
